@@ -185,7 +185,7 @@ def ArgSafe (f : FormatSpec) : Arg → Prop
   | .str bs => Valid (bs.take (cutSize f bs.length))
   | .char8 v => f.digitClass = .chr → v < 0x80
   | .float r => ∀ plus prec cls, Ascii (r plus prec cls)
-  | .wide src us => ∀ bs, Utf.stringFrom src .checkValidity (some us) = .ok bs → Valid (bs.take (cutSize f bs.length))
+  | .wide src m us => ∀ bs, Utf.stringFrom src m (some us) = .ok bs → Valid (bs.take (cutSize f bs.length))
   | _ => True
 
 theorem formatType_safe (a : Arg) (f : FormatSpec) (hp : padOf f < 0x80) (ha : ArgSafe f a) (ev : List Event)
@@ -218,9 +218,9 @@ theorem formatType_safe (a : Arg) (f : FormatSpec) (hp : padOf f < 0x80) (ha : A
     injection h with h; subst h
     exact formatString_safe f hp bs ha
   | nullStr => simp only [formatType] at h; injection h with h; subst h; rfl
-  | wide src us =>
+  | wide src m us =>
     simp only [formatType] at h
-    cases hc : Utf.stringFrom src .checkValidity (some us) with
+    cases hc : Utf.stringFrom src m (some us) with
     | ok bs =>
       rw [hc] at h
       simp only [Outcome.bind] at h
